@@ -144,6 +144,11 @@ def _ops(tier):
     add("subset(1:3)", lambda m: m.subset(slice(1, 3)), seq(lambda u: u[1:3]))
     add("subset(::2)", lambda m: m.subset(slice(None, None, 2)), seq(lambda u: u[::2]))
     add("subset(::-1)", lambda m: m.subset(slice(None, None, -1)), seq(lambda u: u[::-1]))
+    add("subset(::-2)", lambda m: m.subset(slice(None, None, -2)), seq(lambda u: u[::-2]))
+    add("subset(::-3)", lambda m: m.subset(slice(None, None, -3)), seq(lambda u: u[::-3]))
+    add("subset(-1:0:-2)", lambda m: m.subset(slice(-1, 0, -2)), seq(lambda u: u[-1:0:-2]))
+    add("subset(2::-1)", lambda m: m.subset(slice(2, None, -1)), seq(lambda u: u[2::-1]))
+    add("subset(1::3)", lambda m: m.subset(slice(1, None, 3)), seq(lambda u: u[1::3]))
     add("subset([last,0])", lambda m: m.subset([m.count() - 1, 0]), seq(lambda u: [u[-1], u[0]]), lambda u, s: len(u) >= 2)
     add("subset(int-array)", lambda m: m.subset(np.array([1, 0])), seq(lambda u: [u[1], u[0]]), lambda u, s: len(u) >= 2)
     add("subset(bool-array)", lambda m: m.subset(np.arange(m.count()) % 2 == 0), seq(lambda u: u[::2]))
